@@ -54,6 +54,10 @@ fn parse_ty(v: &Value, idx: &HashMap<String, usize>) -> Ty {
 
 fn load_ir() -> Ir {
     let ir: Value = serde_json::from_str(verifgen::IR_SRC).unwrap();
+    ir_of(&ir)
+}
+
+fn ir_of(ir: &Value) -> Ir {
     let types = ir["types"].as_array().unwrap();
     let mut idx = HashMap::new();
     let mut names = vec![];
@@ -519,6 +523,71 @@ pub fn cases(seed: u64, tier: Tier) -> Cases {
                         }
                     }
                 }
+            }
+        }
+    }
+    // ---- the generator's per-field decisions (rename / default / skip_serializing_if) on seeded random definitions:
+    // read back from the emitted structs with syn and compared with the specification's `shape` (through aliases
+    // of aliases and external fallbacks), under all three configurations
+    let n_ir = if tier == Tier::Quick { 40 } else { 400 };
+    for k in 0..n_ir {
+        let rir = crate::irrand::random_ir(&mut rng, &crate::irrand::Opts { max_types: 8, services: false, errors: false, keywords: true });
+        let rdefs = ir_of(&rir);
+        let rsexp = defs_sexp(&rdefs);
+        let (exh, emp) = (rng.chance(1, 2), rng.chance(1, 2));
+        let cfg = crate::irgen::GenCfg { exhaustive: exh, serialize_empty_collections: emp, strip_prefix: None, build_crate: None };
+        let tree = match crate::irgen::generate(&rir, &cfg) {
+            Ok(t) => t,
+            Err(e) => {
+                cs.push("attrs", "noop".into(), "noop".into(), true, format!("seeded definitions #{}", k));
+                cs.fail_last("attrs:generation-failed", format!("generation failed for seeded definitions #{}: {}", k, e.chars().take(300).collect::<String>()));
+                continue;
+            }
+        };
+        let mut structs: HashMap<String, Vec<(String, String)>> = HashMap::new();
+        for (p, text) in &tree {
+            if !p.ends_with(".rs") {
+                continue;
+            }
+            if let Ok(file) = syn::parse_file(text) {
+                for item in &file.items {
+                    if let syn::Item::Struct(st) = item {
+                        if let syn::Fields::Named(nf) = &st.fields {
+                            let fields = nf
+                                .named
+                                .iter()
+                                .map(|f| {
+                                    let attr: String = f.attrs.iter().filter(|a| a.path().is_ident("serde")).map(|a| quote::quote!(#a).to_string().chars().filter(|c| !c.is_whitespace()).collect::<String>()).collect();
+                                    (f.ident.as_ref().map(|i| i.to_string()).unwrap_or_default(), attr)
+                                })
+                                .collect();
+                            structs.insert(st.ident.to_string(), fields);
+                        }
+                    }
+                }
+            }
+        }
+        for (i, d) in rdefs.defs.iter().enumerate() {
+            if let Def::Object(fs) = d {
+                let op = format!("attrs {} {}{}0 {}", rsexp, exh as u8, emp as u8, i);
+                let real = match structs.get(&rdefs.names[i]) {
+                    None => "struct-not-found".to_string(),
+                    Some(sf) => {
+                        if sf.len() != fs.len() {
+                            format!("field-count {} != {}", sf.len(), fs.len())
+                        } else {
+                            fs.iter()
+                                .zip(sf)
+                                .map(|((name, _), (_, attr))| {
+                                    let renamed = attr.contains(&format!("rename=\"{}\"", name));
+                                    format!("{}:{}:{}", if renamed { hex(name.as_bytes()) } else { format!("not-renamed<{}>", attr) }, if attr.contains(",default") || attr.contains("(default") { "d" } else { "-" }, if attr.contains("skip_serializing_if") { "s" } else { "-" })
+                                })
+                                .collect::<Vec<_>>()
+                                .join(",")
+                        }
+                    }
+                };
+                cs.push("attrs", op, real, !fs.is_empty(), format!("serde attributes of {} in seeded definitions #{} ({} fields, exhaustive={}, empties={})", rdefs.names[i], k, fs.len(), exh, emp));
             }
         }
     }
